@@ -46,6 +46,10 @@ def run(ctx):
         graphs[cfg] = {"constants": c, "states": info["states"], "transitions": info["transitions"],
                        "cover_paths": info["cover_paths"], "replayed": len(beh),
                        "steps_executed": sum(x.get("steps", 0) for x in res)}
+    if ctx.nviol:
+        # self-tests use the recorded results of this run; with violations present they prove nothing
+        ctx.cov["selftests"] = ["skipped: the run found violations"]
+        return
     # binding self-tests: a forgotten handle and a handle dropped twice must be reported
     st = ctx.run_engine(vh, "arcstr", allbeh[:50], opts={"selftest": "forget"}, tag="selftest-forget")
     if not any(x.get("key") == "C33:leak" for x in st):
